@@ -23,7 +23,8 @@ RULE = ("(a) Optimiser level: Hypothesis draws (N,W) with NW<=24, a PSD covarian
         "finite/symmetric/PD, every float field of the result and every emitted cost table finite. Non-trivial = condition "
         "number of S > 1e6 or rank(S) < NW or the floor removed at least one entry; distinct by SHA-1 of the case."
         " End to end with a requested floor (1e-4..0.2, both front ends, sometimes after the same run with another floor): every MRF stored by an optimise phase is the floor-filtered image of a matrix the optimiser returned in that round, judged by the caller's floor."
-        ' Pinned optimiser cases with NW = 130, 150, 256.')
+        ' Pinned optimiser cases with NW = 130, 150, 256.'
+        ' Several floors per case coincide exactly with magnitudes the optimiser produced (neighbouring magnitudes included).')
 ASSUMPTIONS = ["a run that raises does not complete and is outside clause (c) (counted as discarded)",
                "optimiser-level inputs are symmetric PSD matrices built as sample covariances of finite data"]
 
@@ -178,9 +179,15 @@ def execute_floor(case, t):
         raise Violation("with no floor requested some entries were removed")
     mags = np.unique(np.abs(np.concatenate([p.ravel() for p in produced])))
     mags = mags[mags > 0]
-    boundary = float(mags[case["pick"] % max(1, (len(mags) + 1) // 2)])      # lower half: keeps the filtered matrix invertible more often
+    half = max(1, (len(mags) + 1) // 2)
+    # floors that coincide exactly with the magnitude of an entry the optimiser produced (lower half of the magnitudes: keeps the
+    # filtered matrix invertible more often); several per case, neighbours in magnitude included - entries that are equal up to
+    # the solver's tolerance (repeats of one Toeplitz parameter) sit right next to each other there
+    picks = sorted({(case["pick"] + d) % half for d in (0, 1, 2, half // 2, half - 1)})
+    boundaries = [float(mags[i]) for i in picks]
+    boundary = boundaries[0]
     total_removed = 0
-    for e in (eps, boundary):
+    for e in [eps] + boundaries:
         ev = e
         if case["eps_form"] == "np.float64":
             ev = np.float64(e)
